@@ -122,6 +122,43 @@ theorem splitOn_joinSlash (l : List Bytes) (hne : l ≠ []) (h : ∀ s ∈ l, sl
       simp only [joinSlash]
       rw [key s _ (h s (by simp)), ih (by simp) (fun x hx => h x (by simp [hx]))]
 
+/-! ### canonical paths are fixed points of path.Clean -/
+
+theorem jailElems_eq (p : Bytes) : jailElems p = cleanElems true p := by
+  unfold jailElems cleanElems
+  have : splitOn slash (slash :: p) = [] :: splitOn slash p := by simp [splitOn]
+  rw [this, List.foldl_cons]
+  simp [cleanStep]
+
+theorem foldl_cleanStep_push (E st : List Bytes) (h : NormalSegs E) :
+    E.foldl (cleanStep true) st = E.reverse ++ st := by
+  induction E generalizing st with
+  | nil => rfl
+  | cons s rest ih =>
+    have hs := h s (by simp)
+    have h1 : ¬ (s = [] ∨ s = dotSeg) := fun hh => hh.elim hs.1 hs.2.1
+    have hstep : cleanStep true st s = s :: st := by simp [cleanStep, h1, hs.2.2.1]
+    rw [List.foldl_cons, hstep, ih _ (fun x hx => h x (by simp [hx]))]
+    simp
+
+/-- cleaning a canonical path changes nothing -/
+theorem cleanElems_canon (E : List Bytes) (h : NormalSegs E) : cleanElems true (slash :: joinSlash E) = E := by
+  unfold cleanElems
+  have hs : splitOn slash (slash :: joinSlash E) = [] :: splitOn slash (joinSlash E) := by simp [splitOn]
+  rw [hs, List.foldl_cons]
+  have h0 : cleanStep true [] [] = [] := by simp [cleanStep]
+  rw [h0]
+  by_cases hE : E = []
+  · subst hE; simp [joinSlash, splitOn, cleanStep]
+  · rw [splitOn_joinSlash E hE (fun s hs => (h s hs).2.2.2), foldl_cleanStep_push E [] h]
+    simp
+
+theorem clean_rooted (t : Bytes) : clean (slash :: t) = slash :: joinSlash (jailElems (slash :: t)) := by
+  rw [jailElems_eq]; simp [clean]
+
+theorem clean_canon (E : List Bytes) (h : NormalSegs E) : clean (slash :: joinSlash E) = slash :: joinSlash E := by
+  rw [clean_rooted, jailElems_eq, cleanElems_canon E h]
+
 /-! ## §2 the kernel walk and http.Dir -/
 
 theorem stat_path {fs : FS} {p : List Bytes} {e : Entry} (h : stat fs p = some e) : e.path = p := by
